@@ -244,6 +244,14 @@ class Exec:
             s.oblig.append((list(st.pc), z3.And(z3.ULE(off, reg.size - n), z3.ULE(off + n, reg.size)), 'load of %d byte(s) inside %s' % (n, reg.name)))
             s.access_log.append(('L', reg.name, list(st.pc), off, n))
             bs = [z3.Select(reg.arr, off + i) for i in range(n)]
+            if is_c(p.o):
+                # concrete address: a byte laid down by a concrete store (e.g. a program word) reads back as a Python int
+                cb = [z3.simplify(b) for b in bs]
+                if all(z3.is_bv_value(b) for b in cb):
+                    v = 0
+                    for i, b in enumerate(cb):
+                        v |= b.as_long() << (8 * i)
+                    return v
             return bs[0] if n == 1 else z3.Concat(*reversed(bs))
         if reg.size is not None and not (0 <= p.o and p.o + n <= reg.size):
             raise Abort('OOB load %s+%d size %s (%s)' % (reg.name, p.o, reg.size, desc))
